@@ -180,6 +180,9 @@ pub fn run(tier: Tier) -> i32 {
         crash_subject: "step".into(),
     };
     let g = gen(tier.is_thorough());
+    if let Some(art) = crate::common::replay_artefact() {
+        return crate::common::finish_replay("C19", &art, &|ws| confirm_enum(&o, &g, ws));
+    }
     let out = run_enum(&o, &g);
     if tier.is_thorough() && crate::common::embedded_fd().is_none() {
         // the same enumeration (quick alphabets) in the dev-like build: debug assertions live,
